@@ -60,7 +60,7 @@ theorem step_w (kind : Nat → W.Full.Cmd) (hk : ∀ n, (kind n).handled = true)
       · cases hk1 : K.step s.k .eng with
         | none => simp [hk1] at h
         | some k1 =>
-          simp [hk1] at h; subst h
+          simp [hk1] at h; obtain ⟨hg, h⟩ := h; subst h
           rename_i hn ht
           obtain ⟨h3, _, _⟩ := G.eng_other s.k k1 hn (by simpa using ht) hk1
           exact Or.inl (by simp [sysOf, h3])
@@ -188,7 +188,7 @@ theorem ginv_step (kind : Nat → W.Full.Cmd) (caps : W.Full.Caps) {s s' : St} {
       · cases hk : K.step s.k .eng with
         | none => simp [hk] at h
         | some k1 =>
-          simp [hk] at h; subst h
+          simp [hk] at h; obtain ⟨hg, h⟩ := h; subst h
           obtain ⟨h1, h2⟩ := eng_link s.k k1 hk
           rename_i hn ht
           obtain ⟨_, _, h5⟩ := G.eng_other s.k k1 hn (by simpa using ht) hk
@@ -425,7 +425,7 @@ theorem sync_step (kind : Nat → W.Full.Cmd) (caps : W.Full.Caps) {s s' : St} {
       · cases hk : K.step s.k .eng with
         | none => simp [hk] at h
         | some k1 =>
-          simp [hk] at h; subst h
+          simp [hk] at h; obtain ⟨hg, h⟩ := h; subst h
           rename_i hn ht
           obtain ⟨_, h4, _⟩ := G.eng_other s.k k1 hn (by simpa using ht) hk
           simpa [h4] using hi
@@ -512,7 +512,7 @@ theorem pinv_step (kind : Nat → W.Full.Cmd) (caps : W.Full.Caps) {s s' : St} {
       · cases hk : K.step s.k .eng with
         | none => simp [hk] at h
         | some k1 =>
-          simp [hk] at h; subst h
+          simp [hk] at h; obtain ⟨hg, h⟩ := h; subst h
           rename_i hn ht
           exact pinv_eng_other s.k k1 hn (by simpa using ht) hk hi
   | env ev =>
@@ -560,6 +560,285 @@ theorem sync_all_empty (s : St) (hs : Sync s) (h : ∀ q ∈ s.core.d.qs, q.cmds
       have hwe := h w (K.mem_of_get _ _ _ hw)
       rw [hwe] at h1
       simpa [K.cmdsOf, K.cmdsAt, hx] using List.eq_nil_of_length_eq_zero h1
+
+/-! ### deadlock freedom of the whole composition -/
+
+/-- `K`'s "every waiter on an empty queue has its notification in flight", with the tick event atomic:
+    nobody is (about to be) blocked in `Wait` on an empty queue -/
+def Note (k : K.St) : Prop := ∀ a ∈ k.apps, K.blockedEmpty a → K.cmdsOf k a.q ≠ []
+
+theorem stepApp_note (k k1 : K.St) (j : Nat) (a : K.App) (hj : k.apps[j]? = some a) (hn : Note k)
+    (h : K.stepApp k j a = some k1) : Note k1 := by
+  have ha := hn a (K.mem_of_get _ _ _ hj)
+  obtain ⟨pc, script, q, sub, tok, ret⟩ := a
+  cases pc
+  case idle =>
+    cases script with
+    | nil => simp [K.stepApp] at h
+    | cons op rest =>
+      cases op with
+      | enq q' =>
+        simp only [K.stepApp] at h
+        injection h with h; subst h
+        refine G.set_all _ _ _ _ (fun x hx hb => ?_) (fun hb => by simp [K.blockedEmpty] at hb)
+        intro hc
+        exact hn x hx hb (K.cmdsOf_enq_nil k _ _ _ hc)
+      | drain q' =>
+        simp only [K.stepApp] at h
+        injection h with h; subst h
+        exact G.set_all _ _ _ _ (fun x hx hb => hn x hx hb) (fun hb => by simp [K.blockedEmpty] at hb)
+  case enqN =>
+    simp only [K.stepApp] at h
+    injection h with h; subst h
+    intro x hx hb
+    obtain ⟨y, hy, rfl⟩ := List.mem_map.mp hx
+    obtain ⟨he, _⟩ := K.notify1_blocked _ _ hb
+    rw [he] at hb ⊢
+    exact G.set_all (fun x => K.blockedEmpty x → K.cmdsOf k x.q ≠ []) _ _ _ (fun x hx hb => hn x hx hb)
+      (fun hb => by simp [K.blockedEmpty] at hb) y hy hb
+  case waiting => simp [K.stepApp] at h
+  case chk =>
+    simp only [K.stepApp] at h
+    split at h
+    · injection h with h; subst h
+      exact G.set_all _ _ _ _ (fun x hx hb => hn x hx hb) (fun hb => by simp [K.blockedEmpty] at hb)
+    · rename_i hne
+      injection h with h; subst h
+      exact G.set_all _ _ _ _ (fun x hx hb => hn x hx hb) (fun _ => hne)
+  case toWait =>
+    simp only [K.stepApp] at h
+    split at h
+    · injection h with h; subst h
+      exact G.set_all _ _ _ _ (fun x hx hb => hn x hx hb) (fun hb => by simp [K.blockedEmpty] at hb)
+    · rename_i htok
+      injection h with h; subst h
+      exact G.set_all _ _ _ _ (fun x hx hb => hn x hx hb) (fun _ => ha (Or.inl ⟨rfl, by simpa using htok⟩))
+  all_goals
+    simp only [K.stepApp] at h
+    repeat (split at h)
+    all_goals first
+      | (injection h with h; subst h
+         exact G.set_all _ _ _ _ (fun x hx hb => hn x hx hb) (fun hb => by simp [K.blockedEmpty] at hb))
+      | cases h
+
+/-- a thread still blocked after the notifications of a tick is one of the old threads, not
+    subscribed to any queue a command was dequeued from -/
+theorem notifyN_blocked (qs : List K.Qu) : ∀ (i : Nat) (ns : List Nat) (apps : List K.App) (x : K.App),
+    x ∈ notifyN i qs ns apps → K.blockedEmpty x →
+    x ∈ apps ∧ ∀ j q n, qs[j]? = some q → ns[j]? = some n → n < q.cmds.length → ¬ (x.subscribed = true ∧ x.q = i + j) := by
+  induction qs with
+  | nil => intro i ns apps x hx _; exact ⟨by simpa [notifyN] using hx, by simp⟩
+  | cons q qs ih =>
+    intro i ns apps x hx hb
+    cases ns with
+    | nil => exact ⟨by simpa [notifyN] using hx, by simp⟩
+    | cons n ns =>
+      simp only [notifyN] at hx
+      obtain ⟨h1, h2⟩ := ih (i + 1) ns _ x hx hb
+      by_cases hlt : n < q.cmds.length
+      · simp only [hlt, if_true] at h1
+        obtain ⟨y, hy, rfl⟩ := List.mem_map.mp h1
+        obtain ⟨he, hns⟩ := K.notify1_blocked _ _ hb
+        rw [he] at h2 ⊢
+        refine ⟨hy, ?_⟩
+        intro j q' n' hq hn hl
+        cases j with
+        | zero => simpa using hns
+        | succ j =>
+          have := h2 j q' n' (by simpa using hq) (by simpa using hn) hl
+          rwa [show i + (j + 1) = i + 1 + j by omega]
+      · simp only [hlt, if_false] at h1
+        refine ⟨h1, ?_⟩
+        intro j q' n' hq hn hl
+        cases j with
+        | zero =>
+          simp at hq hn; subst hq; subst hn; exact absurd hl hlt
+        | succ j =>
+          have := h2 j q' n' (by simpa using hq) (by simpa using hn) hl
+          rwa [show i + (j + 1) = i + 1 + j by omega]
+
+theorem leL_length {a b : List Nat} (h : LeL a b) : b.length = a.length := by
+  induction h with
+  | nil => rfl
+  | cons _ _ ih => simp [ih]
+
+/-- the tick event keeps `Note`: the subscribers of every queue that lost a command are notified -/
+theorem tick_note (k : K.St) (ns' : List Nat) (hn : Note k) (haok : ∀ a ∈ k.apps, K.AppOk a)
+    (hle : LeL (k.qs.map fun q => q.cmds.length) ns') (b : Bool) :
+    Note { k with evt := b, qs := List.zipWith syncN k.qs ns', apps := notifyN 0 k.qs ns' k.apps } := by
+  intro x hx hb
+  obtain ⟨hmem, hnot⟩ := notifyN_blocked k.qs 0 ns' k.apps x hx hb
+  have hold := hn x hmem hb
+  have hsub : x.subscribed = true := (haok x hmem).subd (by
+    rcases hb with ⟨h1, _⟩ | h1
+    · exact Or.inr (Or.inr (Or.inr (Or.inl h1)))
+    · exact Or.inr (Or.inr (Or.inr (Or.inr h1))))
+  cases hq : k.qs[x.q]? with
+  | none => simp [K.cmdsOf, K.cmdsAt, hq] at hold
+  | some q0 =>
+    have hq0 : q0.cmds ≠ [] := by simpa [K.cmdsOf, K.cmdsAt, hq] using hold
+    have hlen := leL_length hle
+    simp only [List.length_map] at hlen
+    have hlt : x.q < ns'.length := by rw [hlen]; exact K.lt_of_get _ _ _ hq
+    have hn' : ns'[x.q]? = some ns'[x.q] := List.getElem?_eq_getElem hlt
+    have hge : ¬ ns'[x.q] < q0.cmds.length := fun hl => hnot x.q q0 _ hq hn' hl ⟨hsub, by simp⟩
+    have hz : (List.zipWith syncN k.qs ns')[x.q]? = some (syncN q0 ns'[x.q]) := by
+      simp [List.getElem?_zipWith, hq, hn']
+    have hs : syncN q0 ns'[x.q] = q0 := by
+      unfold syncN
+      have : q0.cmds.length - ns'[x.q] = 0 := by omega
+      rw [this]; rfl
+    simp only [K.cmdsOf, K.cmdsAt, hz, hs]
+    exact hq0
+
+structure DInv (s : St) : Prop where
+  nomid : K.isTickPc s.k.e = false
+  exit : (s.k.e = .afterRun ∨ s.k.e = .clear ∨ s.k.e = .none) → s.core.outb = [] ∧ s.ext = []
+  note : Note s.k
+
+theorem note_congr {k k1 : K.St} (ha : k1.apps = k.apps) (hq : k1.qs = k.qs) (h : Note k) : Note k1 := by
+  unfold Note K.cmdsOf at h ⊢
+  rw [ha, hq]; exact h
+
+theorem async_shape (k k1 : K.St) (h : K.step k .async = some k1) :
+    k1.apps = k.apps ∧ k1.qs = k.qs ∧ (k1.e = k.e ∨ k1.e = .start) := by
+  cases hr : k.r <;> simp only [K.step, hr] at h
+  · cases h
+  · split at h
+    · cases h
+    · injection h with h; subst h; exact ⟨rfl, rfl, Or.inl rfl⟩
+  · split at h
+    · injection h with h; subst h; exact ⟨rfl, rfl, Or.inl rfl⟩
+    · injection h with h; subst h; exact ⟨rfl, rfl, Or.inr rfl⟩
+
+theorem dinv_step (kind : Nat → W.Full.Cmd) (caps : W.Full.Caps) {s s' : St} {t : Th} (hi : DInv s)
+    (haok : ∀ a ∈ s.k.apps, K.AppOk a) (hsync : Sync s)
+    (h : step kind caps s t = some s') : DInv s' := by
+  cases t with
+  | app j =>
+    simp only [step] at h
+    cases ha : s.k.apps[j]? with
+    | none => simp [ha] at h
+    | some a =>
+      simp only [ha] at h
+      cases hk : K.step s.k (.app j) with
+      | none => simp [hk] at h
+      | some k1 =>
+        simp [hk] at h
+        have hk' : K.stepApp s.k j a = some k1 := by simpa [K.step, ha] using hk
+        have hnote := stepApp_note s.k k1 j a ha hi.note hk'
+        obtain ⟨_, _, he, _, _⟩ := stepApp_proto s.k k1 j a hk'
+        by_cases hen : isEnq a = true
+        · simp only [hen, if_true] at h; subst h
+          refine ⟨by simpa [put, he] using hi.nomid, fun hx => ?_, note_congr rfl rfl hnote⟩
+          have hx' : s.k.e = .afterRun ∨ s.k.e = .clear ∨ s.k.e = .none := by simpa [put, he] using hx
+          simpa [put, W.Full.step, sysOf] using hi.exit hx'
+        · simp only [hen] at h; subst h
+          exact ⟨by simpa [he] using hi.nomid, fun hx => hi.exit (by simpa [he] using hx), hnote⟩
+  | async =>
+    simp only [step] at h
+    cases hk : K.step s.k .async with
+    | none => simp [hk] at h
+    | some k1 =>
+      simp [hk] at h
+      obtain ⟨h1, h2, h3⟩ := async_shape s.k k1 hk
+      have hnm : K.isTickPc k1.e = false := by
+        rcases h3 with h3 | h3
+        · rw [h3]; exact hi.nomid
+        · rw [h3]; rfl
+      have hex : (k1.e = .afterRun ∨ k1.e = .clear ∨ k1.e = .none) → s.core.outb = [] ∧ s.ext = [] := by
+        intro hx
+        rcases h3 with h3 | h3
+        · exact hi.exit (by rwa [h3] at hx)
+        · rw [h3] at hx; simp at hx
+      by_cases hr : s.k.r = .tick
+      · simp only [hr, if_true] at h; subst h
+        refine ⟨by simpa [put] using hnm, fun hx => ?_, note_congr h1 h2 hi.note⟩
+        have := hex (by simpa [put] using hx)
+        simpa [put, W.Full.step, sysOf] using this
+      · simp only [hr, if_false] at h; subst h
+        exact ⟨hnm, hex, note_congr h1 h2 hi.note⟩
+  | eng =>
+    simp only [step] at h
+    split at h
+    · rename_i hc
+      injection h with h; subst h
+      refine ⟨by simp [hc.1, K.isTickPc], fun hx => by simp [hc.1] at hx, ?_⟩
+      have hcore : (W.Full.step caps (sysOf s) .tick).core = (W.Full.tick caps s.core).1 := by
+        simp [W.Full.step, sysOf, hc.2]
+      have hle : LeL (s.k.qs.map fun q => q.cmds.length) (lens (W.Full.step caps (sysOf s) .tick).core) := by
+        rw [hcore, hsync]; exact tick_leL caps s.core
+      exact tick_note s.k _ hi.note haok hle _
+    · split at h
+      · cases h
+      · cases hk : K.step s.k .eng with
+        | none => simp [hk] at h
+        | some k1 =>
+          simp [hk] at h; obtain ⟨hg, h⟩ := h; subst h
+          rename_i hn ht
+          obtain ⟨_, h4, h5⟩ := G.eng_other s.k k1 hn (by simpa using ht) hk
+          have hnote : Note k1 := note_congr h5 h4 hi.note
+          cases he : s.k.e <;> simp only [K.step, he] at hk
+          case none => cases hk
+          case deq i => simp [he, K.isTickPc] at ht
+          case notify i => simp [he, K.isTickPc] at ht
+          case start =>
+            injection hk with hk; subst hk
+            exact ⟨rfl, fun hx => by simp at hx, hnote⟩
+          case loop =>
+            split at hk
+            · rename_i hv; exact absurd ⟨he, hv⟩ hn
+            · injection hk with hk; subst hk
+              exact ⟨rfl, fun _ => hg he, hnote⟩
+          case afterRun =>
+            injection hk with hk; subst hk
+            exact ⟨rfl, fun _ => hi.exit (Or.inl he), hnote⟩
+          case clear =>
+            split at hk <;>
+            · injection hk with hk; subst hk
+              first
+                | exact ⟨rfl, fun _ => hi.exit (Or.inr (Or.inl he)), hnote⟩
+                | exact ⟨rfl, fun hx => by simp at hx, hnote⟩
+  | env ev =>
+    simp only [step] at h
+    split at h
+    · rename_i hc
+      injection h with h; subst h
+      exact ⟨by simp [put, hc.2, K.isTickPc], fun hx => by simp [put, hc.2] at hx, note_congr rfl rfl hi.note⟩
+    · cases h
+
+theorem dinv_reach {kind : Nat → W.Full.Cmd} {caps : W.Full.Caps} {s : St} (h : Reach kind caps s) : DInv s := by
+  induction h with
+  | init cfg scripts h =>
+    refine ⟨by simp [init, K.init, K.isTickPc], fun _ => by simp [init, W.Full.init], ?_⟩
+    intro a ha hb
+    simp only [init, K.init, List.mem_map] at ha
+    obtain ⟨sc, _, rfl⟩ := ha
+    simp [K.blockedEmpty] at hb
+  | step t hr hs ih => exact dinv_step _ _ ih (ginv_reach hr).aok (sync_reach hr) hs
+
+theorem stepApp_none (k : K.St) (j : Nat) (a : K.App) (h : K.stepApp k j a = none) (hr : k.r = .idle) :
+    K.appDone a ∨ a.pc = .waiting := by
+  obtain ⟨pc, script, q, sub, tok, ret⟩ := a
+  cases pc
+  case idle =>
+    cases script with
+    | nil => exact Or.inl ⟨rfl, rfl⟩
+    | cons op rest => cases op <;> simp [K.stepApp] at h
+  case waiting => exact Or.inr rfl
+  all_goals simp [K.stepApp, hr] at h
+  all_goals (split at h <;> cases h)
+
+theorem reach_of_runSched {kind : Nat → W.Full.Cmd} {caps : W.Full.Caps} (ts : List Th) :
+    ∀ (s s' : St), Reach kind caps s → runSched kind caps s ts = some s' → Reach kind caps s' := by
+  induction ts with
+  | nil => intro s s' hr h; simp [runSched] at h; subst h; exact hr
+  | cons t ts ih =>
+    intro s s' hr h
+    simp only [runSched] at h
+    cases hs : step kind caps s t with
+    | none => simp [hs] at h
+    | some s1 => simp only [hs] at h; exact ih s1 s' (Reach.step t hr hs) h
 
 end F
 end E
